@@ -2,3 +2,7 @@ import AsamCmp.Bytes
 import AsamCmp.Packet
 import AsamCmp.Decoder
 import AsamCmp.Encoder
+import AsamCmp.EncHist
+import AsamCmp.Tile
+import AsamCmp.Builders
+import AsamCmp.Tecmp
